@@ -134,7 +134,7 @@ def I5(S):
 # ---------------------------------------------------------------------------------------------- memo plumbing
 
 
-@contract("Vertex._qa_neighbors_get", "self:Vertex, d:int, u:int, f:cb:ff2", props=("C05", "C04"))
+@contract("Vertex._qa_neighbors_get", "self:Vertex, d:int, u:int, f:cb:ff2", props=("C05", "C04", "C10"))
 def _(c):
     S, v = c.S, c.self
     c.requires(memo_wf_at(S, v, c.d, c.u, c.f), "memo-entry-is-a-list")
@@ -146,7 +146,7 @@ def _(c):
     stats_monotone(o2)
 
 
-@contract("Vertex._qa_neighbors_insert", "self:Vertex, answer:list:Vertex, d:int, u:int, f:cb:ff2", props=("C05", "C04"))
+@contract("Vertex._qa_neighbors_insert", "self:Vertex, answer:list:Vertex, d:int, u:int, f:cb:ff2", props=("C05", "C04", "C10"))
 def _(c):
     S, v = c.S, c.self
     ans = c.val("answer").ref
